@@ -71,4 +71,9 @@ def opCliDigest (j : Json) : R Json := do
   let hash := fun a => match table.find? (·.1 == a) with | some p => p.2 | none => ""
   pure (Json.mkObj [("ok", Json.str (digestOutput (← strs j "algs") hash))])
 
+/-- `{"op":"cli_extract_meta","patch_meta":[[key,value]…],"set_meta":[[key,value]…]}` → the `metadata` entry
+`pyhf patchset extract --with-metadata` emits (values are opaque rendered strings) -/
+def opCliExtractMeta (j : Json) : R Json := do
+  pure (Json.mkObj [("ok", pairsJ (extractMetadata (← pairs j "patch_meta") (← pairs j "set_meta")))])
+
 end Pyhf.Driver
